@@ -20,5 +20,6 @@ CONSTANTS
   BugContES = FALSE
   BugPadCredit = FALSE
   EncodeAtEnqueue = FALSE
+  BugZeroCostHeld = FALSE
 INVARIANTS WithinGrant WithinMaxFrame CreditReturned NoEligibleQueued LedgerAgrees PrefixFidelity HpackInOrder
 CHECK_DEADLOCK FALSE
